@@ -28,7 +28,8 @@ Definition render_code (c : tcode) (cfg : data) (env : N) : rres :=
   | 1 => match pick_all (tc_pick c) cfg [] with                    (* .config.kN, missingkey=error *)
          | Some d => RObj k d (tc_orefs c) | None => RTmplErr end
   | 2 => RObj k (pick_def (tc_pick c) cfg []) (tc_orefs c)         (* index .config "kN" | default "v0" *)
-  | 3 => RObj k (dset 99 env cfg) (tc_orefs c)                     (* + .environment.kubernetes.version *)
+  | 3 => RObj k (dset 99 (env mod 1000) cfg) (tc_orefs c)          (* + .environment.kubernetes.version *)
+  | 6 => RObj k (dset 98 (env / 1000) (dset 99 (env mod 1000) cfg)) (tc_orefs c)   (* + the HyperShift part, see Template.view *)
   | 4 => RTmplErr                                                  (* unparsable text *)
   | _ => RYamlErr                                                  (* renders to non-YAML *)
   end.
@@ -72,22 +73,31 @@ Definition tmpl_eqb (a b : tmpl tcode) : bool :=
   (t_ns a =? t_ns b) && list_eqb source_eqb (t_sources a) (t_sources b) && tcode_eqb (t_code a) (t_code b)
   && (t_gen a =? t_gen b) && Bool.eqb (t_fin a) (t_fin b) && Bool.eqb (t_del a) (t_del b) && (t_invalid a =? t_invalid b)
   && list_eqb pair_eqb (t_conds a) (t_conds b) && option_eqb key_eqb (t_ctrlof a) (t_ctrlof b).
+Definition sink_eqb (a b : sink) : bool :=
+  (sk_ver a =? sk_ver b) && Bool.eqb (sk_hs a) (sk_hs b) && (sk_ns a =? sk_ns b)
+  && forallb (fun x => existsb (N.eqb x) (sk_hcs b)) (sk_hcs a) && forallb (fun x => existsb (N.eqb x) (sk_hcs a)) (sk_hcs b).
 Definition world_eqb (a b : cworld) : bool :=
   store_eqb (w_store a) (w_store b) && option_eqb tmpl_eqb (w_tmpl a) (w_tmpl b)
-  && watch_eqb (w_watch a) (w_watch b) && (w_env a =? w_env b) && Bool.eqb (w_pending a) (w_pending b).
+  && watch_eqb (w_watch a) (w_watch b) && (w_env a =? w_env b) && sink_eqb (w_sink a) (w_sink b) && Bool.eqb (w_pending a) (w_pending b).
 Definition wres_eqb (a b : wres) : bool :=
   match a, b with WOk, WOk | WAlreadyExists, WAlreadyExists | WBadRequest, WBadRequest | WOther, WOther => true | _, _ => false end.
 Definition ev_eqb (a b : ev) : bool :=
   match a, b with
   | EWatch x, EWatch y => x =? y
   | EFree, EFree | EFinAdd, EFinAdd | EFinRm, EFinRm | EStatus, EStatus => true
-  | EPatchLabel x, EPatchLabel y => key_eqb x y
+  | EPatchLabel x d1, EPatchLabel y d2 | ECacheHit x d1, ECacheHit y d2 => key_eqb x y && data_eqb d1 d2
+  | EPatchFail x, EPatchFail y => key_eqb x y
+  | EFail x, EFail y => x =? y
   | ECreate k1 d1 r1, ECreate k2 d2 r2 | EUpdate k1 d1 r1, EUpdate k2 d2 r2 => key_eqb k1 k2 && data_eqb d1 d2 && wres_eqb r1 r2
   | _, _ => false
   end.
 Definition sobs_eqb (a b : sobs) : bool :=
   match a, b with
   | OPass x, OPass y => list_eqb ev_eqb (p_evs x) (p_evs y) && (p_requeue x =? p_requeue y) && (p_err x =? p_err y)
+  | OPassX x r1, OPassX y r2 =>
+      list_eqb ev_eqb (p_evs x) (p_evs y) && (p_requeue x =? p_requeue y) && (p_err x =? p_err y)
+      && list_eqb (option_eqb data_eqb) r1 r2
+  | OAux x, OAux y => x =? y
   | OEnq x, OEnq y => Bool.eqb x y
   | ONone, ONone => true
   | _, _ => false
@@ -217,6 +227,25 @@ Definition cl_enqueue (pre : cworld) (k : key) (changed : obj -> bool) (b : bool
   | None => true
   end.
 
+(** A pass during which third parties act and requests fail: whatever it writes is the render of what it
+    read-and-labelled, and every source without such a read is optional. *)
+Definition cl_reads (pre : cworld) (r : pres) (rs : list (option data)) : bool :=
+  match target_writes (p_evs r) with
+  | [] => true
+  | ws =>
+      match w_tmpl pre with
+      | Some t =>
+          match cfg_of_reads (t_sources t) rs [] with
+          | Some cfg => match R (t_code t) cfg (w_env pre) with
+                        | RObj k0 d _ => forallb (kd_eqb (eff_key (t_ns t) k0, d)) ws && Nat.eqb (length ws) 1
+                        | _ => false
+                        end
+          | None => false
+          end
+      | None => false
+      end
+  end.
+
 (** The clauses of one pass. *)
 Definition pass_clauses (ivres ivopt : N) (pre post : cworld) (r : pres) : list bool :=
   match w_tmpl pre with
@@ -239,7 +268,10 @@ Definition step_clauses (ivres ivopt : N) (pre : cworld) (s : cstep) (o : sobs) 
   | SDrain, ONone => [negb (w_pending pre); true; true; true; true; true; true; true; true]
   | SPut k d _, OEnq b => [true; true; true; true; true; true; true; true; cl_enqueue pre k (fun o => negb (data_eqb (o_data o) d)) b]
   | SDel k, OEnq b => [true; true; true; true; true; true; true; true; cl_enqueue pre k (fun _ => true) b]
-  | SPoke _ _ _, ONone | SEdit _ _, ONone | STDel, ONone | SEnv _, ONone => nine
+  | SPassX _, OPassX r rs => [cl_reads pre r rs; true; true; true; true; true; true; true; true]
+  | SAux ns, OAux h =>       (* another template of the same controller: rendered with the environment as it is now, for its namespace *)
+      [h =? hval (w_sink pre) ns; true; true; true; true; true; true; true; true]
+  | SPoke _ _ _, ONone | SEdit _ _, ONone | STDel, ONone | SEnv _, ONone | SHyper _, ONone | SHc _ _, ONone => nine
   | _, _ => [false; true; true; true; true; true; true; true; true]      (* observation of the wrong shape *)
   end.
 
@@ -498,7 +530,7 @@ Section Sound.
     let '(w', o) := do_step w s in
     step_clauses ivres ivopt w s o w' = nine_true.
   Proof.
-    destruct s as [k d lbl|k|k so cs|srcs c| |e| |]; cbn [Template.do_step]; unfold note.
+    destruct s as [k d lbl|k|k so cs|srcs c| |e|hb|hns hb|ans|adv| |]; cbn [Template.do_step]; unfold note.
     - destruct (lookup k (w_store w)) as [o|] eqn:El.
       + destruct (data_eqb (o_data o) d) eqn:Ed; cbn; unfold cl_enqueue; rewrite El, Ed; cbn.
         * now rewrite andb_false_r.
@@ -510,6 +542,18 @@ Section Sound.
     - destruct (w_tmpl w); reflexivity.
     - destruct (w_tmpl w) as [t|]; [destruct (t_fin t)|]; reflexivity.
     - reflexivity.
+    - reflexivity.
+    - reflexivity.
+    - cbn [step_clauses]. now rewrite N.eqb_refl.
+    - destruct (Template.passx R SC ns_escalation ivres ivopt adv w) as [[w' r] rs] eqn:Ep. cbn [step_clauses].
+      replace (cl_reads w r rs) with true; [reflexivity|]. symmetry. unfold cl_reads.
+      destruct (target_writes (p_evs r)) as [|[k d] ws] eqn:Ew; [reflexivity|].
+      destruct (w_tmpl w) as [t|] eqn:Et.
+      + destruct (passx_reads _ _ _ _ _ _ _ _ _ _ Et Ep k d) as (Hw & cfg & k0 & orefs & _ & Hc & Hr & _ & Hk); [rewrite Ew; now left|].
+        cbn [t_sources t_code t_ns set_fin] in Hc, Hr, Hk. rewrite Ew in Hw. injection Hw as ->.
+        rewrite Hc, Hr, <- Hk. cbn. now rewrite kd_eqb_refl.
+      + exfalso. unfold Template.passx, req in Ep. cbn [w_tmpl with_store] in Ep. rewrite Et in Ep.
+        destruct (adv_fault adv 0) as [[|]|]; injection Ep as _ <- _; discriminate.
     - destruct (pass w) as [w' r] eqn:Ep. cbn [step_clauses]. now apply pass_sound.
     - destruct (w_pending w) eqn:Epd.
       + destruct (pass w) as [w' r] eqn:Ep. cbn [step_clauses]. rewrite Epd. now apply pass_sound.
@@ -639,6 +683,10 @@ Section Sound2.
     - destruct (w_tmpl w); injection Es as <- <-; intros Ha; discriminate.
     - destruct (w_tmpl w) as [t|]; [destruct (t_fin t)|]; injection Es as <- <-; intros Ha; discriminate.
     - injection Es as <- <-. intros Ha; discriminate.
+    - injection Es as <- <-. intros Ha; discriminate.
+    - injection Es as <- <-. intros Ha; discriminate.
+    - injection Es as <- <-. intros Ha; discriminate.
+    - destruct (Template.passx R SC ns_escalation ivres ivopt a w) as [[w' r'] rs']. injection Es as <- <-. intros Ha; discriminate.
     - (* pass *)
       destruct (pass w) as [w' r'] eqn:Ep. injection Es as <- <-. intros Ha. right. now apply (arms_calm w w' r').
     - (* drain *)
@@ -677,7 +725,7 @@ Definition witness_world : cworld :=
                        t_sources := [{| s_kind := 3; s_ns := 1; s_name := 1; s_opt := false; s_items := [(1, 1)] |}];
                        t_code := {| tc_form := 0; tc_kind := 1; tc_ns := 0; tc_name := 100; tc_pick := []; tc_orefs := false |};
                        t_gen := 1; t_fin := false; t_del := false; t_invalid := 0; t_conds := []; t_ctrlof := None |};
-     w_watch := []; w_env := 1; w_pending := false |}.
+     w_watch := []; w_env := 1; w_sink := {| sk_ver := 1; sk_hs := false; sk_hcs := []; sk_ns := 1 |}; w_pending := false |}.
 
 Definition v0_case (w : cworld) (ss : list cstep) : ccase :=
   let obs := run R SC ns_escalation_v0 30 60 w ss in
@@ -697,7 +745,7 @@ Definition sample_world : cworld :=
                                      {| s_kind := 2; s_ns := 0; s_name := 2; s_opt := true; s_items := [(1, 2)] |}];
                        t_code := {| tc_form := 0; tc_kind := 1; tc_ns := 0; tc_name := 100; tc_pick := []; tc_orefs := false |};
                        t_gen := 1; t_fin := false; t_del := false; t_invalid := 0; t_conds := []; t_ctrlof := None |};
-     w_watch := []; w_env := 1; w_pending := false |}.
+     w_watch := []; w_env := 1; w_sink := {| sk_ver := 1; sk_hs := false; sk_hcs := []; sk_ns := 1 |}; w_pending := false |}.
 Definition sample_history : list cstep := [SPass; SPut (1, 1, 1) [(1, 6)] LAbsent; SPass].
 
 Lemma sample_ok :
